@@ -377,7 +377,7 @@ Definition next_fuel (p : parser) : nat := Z.to_nat (lx_len (pl p) - lpos (pl p)
 
 Definition parse_next (p : parser) : pres (gtype * parser) :=
   let F := next_fuel p in
-  let p := set_err p false in
+  let p := set_buf (set_err p false) [] in                   (* p.err = ""; p.initBuf() (fix ef9c484) *)
   p <-- (if prevend p then POk (set_prevend (set_tok p TRightBrace [125]) false)
          else r <-- pop_token F true p ;; POk (set_tok (snd r) (fst (fst r)) (snd (fst r)))) ;;
   match pst p with
